@@ -439,7 +439,8 @@ def regex_selftest():
 HARNESSES = {
     "membrane": {"make": membrane_history, "witness_every": 23,
                  "jobs": lambda tier: ([{"k": 3}, {"k": 4, "ops": ["filter_x", "learn", "forget", "relax_threshold"]}] if tier == "quick" else
-                                       [{"k": 4}, {"k": 5, "ops": ["filter_x", "learn", "forget", "relax_threshold"]}]),
+                                       [{"k": 3}, {"k": 4, "ops": ["filter_x", "learn", "import", "tighten_threshold", "add_signature"]},
+                                        {"k": 5, "ops": ["filter_x", "learn", "forget", "relax_threshold"]}]),
                  "clauses": ["C10.a", "C10.b", "C10.c", "C10.d", "C10.e", "C10.f"]},
     "innate": {"make": innate_history, "witness_every": 23, "jobs": lambda tier: [{"k": 2}] if tier == "quick" else [{"k": 3}],
                "clauses": ["C10.a", "C10.a-acute", "C10.b"]},
@@ -459,7 +460,7 @@ META = {
     },
     "files": ["operon_ai/organelles/membrane.py", "operon_ai/surveillance/innate.py"],
     "bounds": {"quick": "membrane histories k=3 over 8 operations and k=4 over {filter, learn, forget, relax} (3 built-in representatives + learned/imported/custom signatures, 2 contents, rate_limit none/1/2); innate histories k=2; embedding L<=2 (membrane) / L<=1 (innate) symbolic cells each side; 13 hostile inputs x 5 gate configurations",
-               "thorough": "membrane k=4, innate k=3, embedding L<=3 / L<=2"},
+               "thorough": "membrane k=3 over all 9 operations, k=4 over {filter, learn, import, tighten_threshold, add_signature}, k=5 over {filter, learn, forget, relax_threshold} (k=4 over all 9 exceeds 5 minutes on 16 cores: outside); innate k=3; embedding L<=3 / L<=2"},
     "outside": ["Unicode case folding beyond ASCII for symbolic text (non-ASCII custom signatures are covered by a finite table of ASCII-case variants only)", "inputs other than the hostile corpus for the C-level totality clause", "truncated-hash collisions in the replay memory", "sub-millisecond clock effects"],
     "float_argument": "time.time() is an exact rational of integer milliseconds; the 60 s window comparison is exact",
     "assumptions": ["matchers stubbed in parts 1-2 (their own behaviour is part 3)", "membrane.time / innate.datetime are the symbolic clock"],
